@@ -84,7 +84,6 @@ func vfC09Min() *Serf {
 //vf:paths quick=800000 thorough=8000000
 //vf:bound inputs join/leave(+prune) intent with any 64-bit time for a known member of symbolic status, the local node, an unknown node or the empty name; a buffered intent may exist
 //vf:stub codec -> identity on tokens
-//vf:nonative
 func VfC09_Intent() {
 	s := vfC09Min()
 	vfArbIntents(s, []string{"zz"})
@@ -107,7 +106,6 @@ func VfC09_Intent() {
 //vf:unwind 24
 //vf:paths quick=800000 thorough=8000000
 //vf:bound inputs user event with any 64-bit time, name and payload nil | empty | <=2 symbolic bytes; event buffer of length 2 with symbolic content
-//vf:nonative
 func VfC09_Event() {
 	s := vfNewSerf("self", 2)
 	vfArbEventBuffer(s, 2)
@@ -124,7 +122,6 @@ func VfC09_Event() {
 //vf:paths quick=800000 thorough=8000000
 //vf:bound inputs query with any 64-bit time, an optional selecting filter followed by one arbitrary filter (zero-length | nil | kind byte only | node list | tag filter with symbolic pattern | none), payload nil | empty | <=2 bytes, source address of 0/4/16/3 bytes, symbolic flags, id and port, timeout from {0, 1s, negative, huge}, relay factor 0/1/5, internal or user query name; query clock and cut-off symbolic; 1 other member
 //vf:stub codec -> identity on tokens; regexp on a symbolic pattern -> uninterpreted outcome; transport recorded
-//vf:nonative
 func VfC09_Query() {
 	s := vfNewSerf("self", 2)
 	s.members["m0"] = &memberState{Member: Member{Name: "m0", Status: StatusAlive, ProtocolMax: 5, ProtocolCur: 5, Addr: net.IP{10, 0, 0, 2}, Port: 7946}}
@@ -159,7 +156,6 @@ func VfC09_Query() {
 //vf:unwind 24
 //vf:paths quick=800000 thorough=8000000
 //vf:bound inputs response with symbolic time (hitting the open query or not), id, flags, sender from 4 names, payload nil | empty | <=2 bytes; the open query requested acks or not and is closed or not
-//vf:nonative
 func VfC09_Response() {
 	s := vfNewSerf("self", 2)
 	d := &delegate{serf: s}
@@ -224,7 +220,6 @@ func VfC09_Other() {
 //vf:paths quick=800000 thorough=8000000
 //vf:bound inputs buffer empty | wrong kind byte | undecodable | payload with ONE arbitrary part: (a) <=2 left members naming listed and unlisted nodes (duplicates, self, nil status map), (b) status times for <=2 names incl. self, (c) event list with nil entries / empty event lists / an event with nil | empty | short name and payload; symbolic clocks (any 64-bit value)
 //vf:outside payloads in which two parts are non-trivial at once (the parts do not share code)
-//vf:nonative
 func VfC09_Merge() {
 	s := vfC09Min()
 	vfArbEventBuffer(s, 2)
@@ -279,7 +274,6 @@ func VfC09_Merge() {
 //vf:paths quick=800000 thorough=8000000
 //vf:bound inputs each internal query name (+ an unknown one); payload nil | empty | 1-2 symbolic bytes | well-formed key request with a key of 0/16/17 symbolic bytes; keyring absent or holding 1-2 keys; keyring file configured or not
 //vf:stub codec -> identity on tokens or error; json/os -> abstract file; base64 -> identity
-//vf:nonative
 func VfC09_Internal() {
 	s := vfNewSerf("self", 2)
 	s.members["m0"] = &memberState{Member: Member{Name: "m0", Status: StatusAlive, Addr: net.IP{10, 0, 0, 2}, Port: 7946}}
